@@ -707,7 +707,10 @@ impl<'a, P: ProcessRun> PubPoint<'a, P> {
                 )? {
                     Ok(res) => return Ok(res),
                     Err(mut this) => {
+                        // The aborted update may already have fed objects
+                        // of the abandoned manifest to the processor.
                         this.metrics = Default::default();
+                        this.processor.restart()?;
                         return Ok(this.process_stored(store, metrics)?)
                     }
                 }
